@@ -7,9 +7,9 @@ import subprocess
 from . import core
 
 
-def run_selene(cwd, args, stdin=None, timeout=120):
+def run_selene(cwd, args, stdin=None, timeout=120, env=None):
     p = subprocess.run([core.SELENE_BIN] + args, cwd=cwd, input=stdin, stdout=subprocess.PIPE,
-                       stderr=subprocess.PIPE, timeout=timeout)
+                       stderr=subprocess.PIPE, timeout=timeout, env=env or core.ENV)
     return p.returncode, p.stdout.decode("utf-8", "replace"), p.stderr.decode("utf-8", "replace")
 
 
@@ -20,7 +20,7 @@ def harness_lint(cwd, config_path, files, std=None):
         cmd += ["--config", config_path]
     if std:
         cmd += ["--std", std]
-    p = subprocess.run(cmd + files, cwd=cwd, stdout=subprocess.PIPE, stderr=subprocess.PIPE, timeout=300)
+    p = subprocess.run(cmd + files, cwd=cwd, stdout=subprocess.PIPE, stderr=subprocess.PIPE, timeout=300, env=core.ENV)
     out = {}
     for line in p.stdout.decode("utf-8", "replace").splitlines():
         if line.startswith("{"):
